@@ -106,3 +106,11 @@ func wgDupDirected(wait time.Duration) (finished bool, pending int, triggered bo
 	})
 	return finished, w.PendingElements().Size(), w.WasTriggered()
 }
+
+// evictMaxSlot: Evict(maximum of the slot type) must return (the loop variable of evict must not wrap around).
+func evictMaxSlot(wait time.Duration) bool {
+	e := reactive.NewEvictionState[uint8]()
+	ev := e.EvictionEvent(255)
+	ok := within(wait, func() { e.Evict(255) })
+	return ok && ev.WasTriggered() && e.LastEvictedSlot() == 255
+}
